@@ -19,6 +19,29 @@ def apply_path_match(ctx, R):
     return b, ms[0]
 
 
+def move_to_sites(ctx, b, region):
+    """[(block, point term)] of DrawTarget::move_to(pt) in a region: real calls, or -- when the helper was written out in
+    place -- the pair of stores self.current_point = Some(X); self.first_point = Some(X) with one X that it consists of"""
+    an = ctx.an(b)
+    out = [(bi, ct[2][1]) for bi, d, ct in calls_in(ctx, b, region) if d == DT + 'move_to']
+    if out or ctx.F.body(DT + 'move_to') is not None:
+        return out
+    sets = {}
+    for a, v, pt, kind in an.stores:
+        if kind != 'assign' or pt[0] not in region:
+            continue
+        for f in ('current_point', 'first_point'):
+            if field_path(a) == (('param', 1), [f]):
+                v1 = strip_all(v)
+                if v1[0] == 'agg' and v1[3] == 'Some':
+                    sets.setdefault(f, []).append((pt, nosite(strip_all(v1[4][0][1])), v1[4][0][1]))
+    for pt, x, raw in sets.get('current_point', []):
+        for pt2, x2, raw2 in sets.get('first_point', []):
+            if x == x2 and (pt[0] == pt2[0] or an.cfg.dominates(pt[0], pt2[0]) or an.cfg.dominates(pt2[0], pt[0])):
+                out.append((pt[0] if an.cfg.dominates(pt[0], pt2[0]) else pt2[0], raw))
+    return out
+
+
 def r08_1(ctx):
     """every control point of every op is transformed by the CTM and reaches its own argument slot"""
     R = 'R08.1'
@@ -35,6 +58,8 @@ def r08_1(ctx):
             continue
         region = arm_region(an.cfg, m.bb, m.arms[v])
         cs = [(bi, ct) for bi, d, ct in calls_in(ctx, b, region) if d == DT + meth]
+        if not cs and meth == 'move_to':
+            cs = [(bi, ('call', DT + 'move_to', (('param', 1), x), bi)) for bi, x in move_to_sites(ctx, b, region)]
         if not ctx.check(len(cs) == 1, R, key + '|arm %s calls %s' % (v, meth), b.loc(), '%s -> self.%s(..)' % (v, meth), 'the %s arm calls %s %d times, expected once' % (v, meth, len(cs))):
             continue
         bi, ct = cs[0]
@@ -45,6 +70,13 @@ def r08_1(ctx):
             a = strip_all(ct[2][1 + k2])
             ok = (is_call(a, 'Transform2D::<T, Src, Dst>::transform_point') and is_self_field(strip_all(a[2][0]), 'transform')
                   and strip_all(a[2][1])[0] == 'field' and strip_all(a[2][1])[2] == str(k2) and strip_all(a[2][1])[4] == v and strip_all(a[2][1])[3] == PATHOP)
+            if not ok and a[0] == 'field' and a[2] == str(k2) and a[4] == v and a[3] == PATHOP and is_call(strip_all(a[1]), 'path_builder::PathOp::transform'):
+                # the whole op mapped first: payload k of op.transform(&self.transform) is transform_point(payload k) of the
+                # same variant (R20.3 decides that about PathOp::transform)
+                tc = strip_all(a[1])
+                src_op = strip_all(tc[2][0])
+                ok = len(tc[2]) == 2 and is_self_field(strip_all(tc[2][1]), 'transform') and nosite(tc) == nosite(strip_all(m.scrut)) \
+                    and not any(x[0] == 'call' and isinstance(x[1], str) and 'transform' in x[1] for x in subterms(src_op))
         ctx.check(ok, R, key + '|arm %s points' % v, call_line(b, bi), 'argument k = self.transform.transform_point(payload k)',
                   'the %s arm calls %s(%s): every argument k must be self.transform.transform_point(payload k)' % (v, meth, ', '.join(fmt(b, x) for x in ct[2][1:])))
         n += 1
@@ -74,7 +106,7 @@ def r01_4_close(ctx):
     if 'MoveTo' in m.arms:
         region = arm_region(cfg, m.bb, m.arms['MoveTo'])
         cl = [c for c in closes if c in region]
-        mv = [bi for bi, d, ct in calls_in(ctx, b, region) if d == DT + 'move_to']
+        mv = [bi for bi, x in move_to_sites(ctx, b, region)]
         ok = bool(cl) and bool(mv) and all(any(cfg.dominates(c, x) and c != x for c in cl) for x in mv)
         ctx.check(ok, R, key + '|MoveTo closes first', b.loc(), 'MoveTo arm: close() before move_to()', 'the MoveTo arm does not close the previous subpath before moving: an open subpath is left unclosed when the next one starts')
     # curve flags: line_to and close add straight edges, add_quad adds curves with the control point in slot 3
@@ -236,7 +268,8 @@ def r08_2(ctx):
             chop_sites.append((bi, (i1, i2, i3)))
         else:
             plain.append((bi, (r1, i1), (r2, i2), (r3, i3)))
-    chop_sites.sort(key=lambda p: sum(1 for q in chop_sites if an.cfg.dominates(q[0], p[0])))
+    _snap = list(chop_sites)
+    chop_sites = sorted(_snap, key=lambda p: sum(1 for q in _snap if an.cfg.dominates(q[0], p[0])))
     ok = [x[1] for x in chop_sites] == [(0, 2, 1), (2, 4, 3)]
     ctx.check(ok, R, key + '|chopped halves', b.loc(), 'edges (dst[0], dst[2], ctrl dst[1]) and (dst[2], dst[4], ctrl dst[3])',
               'after chopping, add_quad adds edges %s (start, end, control indices into dst); expected (0,2,1) then (2,4,3): the two halves must chain and keep their own control point' % [x[1] for x in chop_sites])
@@ -248,7 +281,8 @@ def r08_2(ctx):
     for bi, idxs in chop_sites:
         gs = normalized_guards(ctx, b, bi)
         ok1 = any(op == 'true' and is_call(a, 'geom::is_not_monotonic') for op, a, b2, si in gs)
-        ok2 = any(op == 'true' and is_call(a, 'geom::valid_unit_divide') for op, a, b2, si in gs)
+        ok2 = any(op == 'true' and is_call(a, 'geom::valid_unit_divide') for op, a, b2, si in gs) or \
+            any(v == 'Some' and is_call(strip_all(scr), 'geom::valid_unit_divide') for scr, adt, v, sb in variant_guards(ctx, b, bi))   # ... -> Option<f32>
         ctx.check(ok1 and ok2, R, key + '|chop guards@%s' % (idxs,), call_line(b, bi), 'chopping under is_not_monotonic && valid_unit_divide', 'the chopped edges are not guarded by is_not_monotonic and valid_unit_divide')
     chops = [ct for bi, d, ct in calls_in(ctx, b) if d == 'raqote::geom::chop_quad_at']
     ok = len(chops) == 1 and strip_all(chops[0][2][1])[0] == 'mem'
@@ -824,6 +858,25 @@ def axes_used(t):
     return s
 
 
+def first_stores(an, names, skip=None):
+    """{field name: (addr, value, point)} the store to each named field that comes first in execution order: the one
+    whose block dominates every other store to that field (block numbers say nothing: inlined code is appended)"""
+    by = {}
+    for a, v, pt, kind in an.stores:
+        if kind != 'assign' or pt[0] not in an.cfg.reach:
+            continue
+        nm = field_path(a)[1][-1:]
+        if nm and nm[0] in names and not (skip and skip(nm[0], v)):
+            by.setdefault(nm[0], []).append((a, v, pt))
+    out = {}
+    for n, lst in by.items():
+        for c in lst:
+            if all(c is o or (c[2][0] == o[2][0] and c[2][1] <= o[2][1]) or (c[2][0] != o[2][0] and an.cfg.dominates(c[2][0], o[2][0])) for o in lst):
+                out[n] = c
+                break
+    return out
+
+
 def r08_5(ctx):
     """axis twins: the x and y halves of the curve set-up are the same function of their own axis"""
     R = 'R08.5'
@@ -838,19 +891,13 @@ def r08_5(ctx):
     ok = 'dx' in vals and 'dy' in vals and axis_blind(vals['dx']) == axis_blind(vals['dy']) and axes_used(vals['dx']) == {'x'} and axes_used(vals['dy']) == {'y'}
     ctx.check(ok, R, key + '|dx/dy twins', b.loc(), 'dx and dy are the same expression of their own axis',
               'in compute_curve_steps dx = %s and dy = %s are not the same function of their own axis (a field of the other axis slipped in): the subdivision count of some curves is far too small' % (fmt(b, vals.get('dx', ('unknown', '?'))), fmt(b, vals.get('dy', ('unknown', '?')))))
-    cs = [ct for bi, d, ct in calls_in(ctx, b) if d == 'raqote::rasterizer::diff_to_shift']
+    cs = shared.calls_to(ctx, b, 'raqote::rasterizer::diff_to_shift')
     ok = len(cs) == 1 and all(is_call(a, 'rasterizer::dot2_to_dot6') for a in cs[0][2]) and cs[0][2][0][2][0] == vals.get('dx') and cs[0][2][1][2][0] == vals.get('dy')
     ctx.check(ok, R, key + '|diff_to_shift(dx, dy)', b.loc(), 'shift = diff_to_shift(dot6(dx), dot6(dy))', 'compute_curve_steps does not pass (dx, dy) in that order to diff_to_shift')
     # add_edge: the stores to e.dx/e.dy and e.ddx/e.ddy made first on the curve path
     ab = ctx.body(RAS + 'add_edge', R)
     aan = ctx.an(ab)
-    first = {}
-    for a, v, pt, kind in aan.stores:
-        if kind != 'assign':
-            continue
-        nm = field_path(a)[1][-1:]
-        if nm and nm[0] in ('dx', 'dy', 'ddx', 'ddy') and nm[0] not in first:
-            first[nm[0]] = v
+    first = {n: c[1] for n, c in first_stores(aan, ('dx', 'dy', 'ddx', 'ddy')).items()}
     for px, py in (('dx', 'dy'), ('ddx', 'ddy')):
         ok = px in first and py in first and axis_blind(first[px]) == axis_blind(first[py]) and axes_used(first[px]) <= {'x'} and axes_used(first[py]) <= {'y'} and axes_used(first[px]) and axes_used(first[py])
         ctx.check(ok, R, 'rasterizer::Rasterizer::add_edge|%s/%s twins' % (px, py), ab.loc(), 'e.%s and e.%s are the same expression of their own axis' % (px, py),
@@ -1147,6 +1194,15 @@ def r08_6(ctx):
     for _ in range(6):
         grew = False
         for o in ops:
+            if o == 'move_to' and ctx.F.body(DT + o) is None:
+                # written out in apply_path's MoveTo arm: both fields are set to Some there (R08.1 finds the pair)
+                ab, am = apply_path_match(ctx, R)
+                if am is not None and 'MoveTo' in am.arms and move_to_sites(ctx, ab, arm_region(ctx.an(ab).cfg, am.bb, am.arms['MoveTo'])):
+                    trans[o] = [('S', 'S')]
+                    if ('S', 'S') not in S:
+                        S.add(('S', 'S'))
+                        grew = True
+                    continue
             b = ctx.body(DT + o, R)
             at, ex = typestate.run(ctx, b, places, entry=S, want_exits=True)
             trans[o] = sorted(ex)
@@ -1166,7 +1222,7 @@ def r08_6(ctx):
                 writers.add(q)
     allowed = set(DT + o for o in ops) | {DT + 'apply_path'}
     extra = sorted(short(w) for w in writers - allowed)
-    ctx.check(not extra and len(writers & allowed) >= 5, R, 'draw_target::DrawTarget|writers of the cursor fields', '-', 'only the path ops and apply_path write current_point / first_point',
+    ctx.check(not extra and len(writers & allowed) >= (5 if ctx.F.body(DT + 'move_to') is not None else 4), R, 'draw_target::DrawTarget|writers of the cursor fields', '-', 'only the path ops and apply_path write current_point / first_point',
               'current_point / first_point are also written by %s (or the path ops no longer write them): the protocol analysis does not cover those writers' % extra)
 
 
@@ -1236,16 +1292,8 @@ def r08_7(ctx):
     key = 'rasterizer::Rasterizer::add_edge'
     if not ctx.check(SS is not None, R, key + '|SAMPLE_SHIFT', '-', 'SAMPLE_SHIFT read', 'cannot read SAMPLE_SHIFT (fail closed)'):
         return
-    first = {}
-    for a, v, pt, kind in an.stores:
-        if kind != 'assign':
-            continue
-        nm = field_path(a)[1][-1:]
-        if nm and nm[0] in ('dx', 'ddx', 'count', 'next_x', 'shift', 'fullx') and nm[0] not in first and pt[0] in an.cfg.reach:
-            # the shift store on the straight-edge path (constant 0) is not the curve's
-            if nm[0] == 'shift' and const_val(v) is not None:
-                continue
-            first[nm[0]] = (a, v, pt)
+    # the shift store on the straight-edge path (constant 0) is not the curve's
+    first = first_stores(an, ('dx', 'ddx', 'count', 'next_x', 'shift', 'fullx'), skip=lambda n, v: n == 'shift' and const_val(v) is not None)
     if not ctx.check(all(k2 in first for k2 in ('dx', 'ddx', 'count', 'next_x', 'shift', 'fullx')), R, key + '|stores (positive control)', b.loc(), 'first stores of dx, ddx, count, next_x, shift, fullx found',
                      'cannot find the first stores of e.dx, e.ddx, e.count, e.next_x, e.shift and e.fullx in add_edge (found %s): fail closed' % sorted(first)):
         return
@@ -1321,8 +1369,27 @@ def r08_7(ctx):
                 ddl = [l for l in pv.leaves() if l[0] == 'field' and l[2] == 'dd' + ax]
                 res.append((ax, len(dl2) == 1 and len(ddl) == 1 and pv == Poly.leaf(dl2[0]) + Poly.leaf(ddl[0]), pt))
         return res
+    # a sample row may pass several short segments at once (a far control point): segments are advanced *while* the current
+    # row is at or below the end of the segment and steps remain, both where the edge is set up and where it is stepped
+    def advance_loop_ok(bb, an2):
+        loops = an2.cfg.loops()
+        adv = [pt for a, v, pt, kind in an2.stores if kind == 'assign' and pt[0] in an2.cfg.reach and field_path(a)[1][-1:] == ['next_y']
+               and any(x[0] == 'field' and x[2] == 'dy' for x in subterms(v))]
+        inloop = [pt for pt in adv if any(pt[0] in bl for bl in loops.values())]
+        if not inloop:
+            return False, 'no segment advance inside a loop'
+        for pt in inloop:
+            gs = normalized_guards(ctx, bb, pt[0])
+            row = any(op in ('Ge', '!Lt', 'Le', '!Gt') and any(is_call(x, 'rasterizer::dot16_to_dot2') and any(y[0] == 'field' and y[2] == 'next_y' for y in subterms(x)) for x in list(subterms(a0)) + list(subterms(b0))) for op, a0, b0, si in gs if b0 is not None)
+            cnt = any(op in ('Gt', '!Le', 'Ne', '!Eq', 'Lt', '!Ge') and any(y[0] == 'field' and y[2] == 'count' for y in list(subterms(a0)) + list(subterms(b0))) for op, a0, b0, si in gs if b0 is not None)
+            if not (row and cnt):
+                return False, 'the advance is not guarded by `count > 0 && cury >= dot16_to_dot2(next_y)`'
+        return True, ''
     for q, bb in ((RAS + 'add_edge', b), ('raqote::rasterizer::ActiveEdge::step', ctx.body('raqote::rasterizer::ActiveEdge::step', R))):
         an2 = ctx.an(bb)
+        okl, whyl = advance_loop_ok(bb, an2)
+        ctx.check(okl, R, short(q) + '|advance while behind', bb.loc(), 'segments are advanced in a loop while count > 0 and the row has reached next_y',
+                  'in %s the curve is not advanced in a loop `while count > 0 && cury >= dot16_to_dot2(next_y)` (%s): when one sample row passes several short segments (a control point far away) the edge lags behind the curve and the fill boundary moves by many pixels' % (short(q), whyl))
         res = order_ok(bb, an2, q)
         n_adv = len(res)
         ctx.check(n_adv >= 4 and all(r[1] for r in res), R, short(q) + '|advance then update', bb.loc(), '%d advance/update sites: next += d >> shift, then d += dd' % n_adv,
